@@ -75,21 +75,21 @@ inductive CommuteErr where
   deriving DecidableEq, Repr
 
 /-- `NodePattern.clone(node_map, swap)` -/
-def cloneNode (np : NPat) (swap : Bool) (k : Nat) : Except CommuteErr (NPat × Nat) :=
+def cloneNode (fix7a : Bool) (np : NPat) (swap : Bool) (k : Nat) : Except CommuteErr (NPat × Nat) :=
   let r := cloneInputs np.inputs k
-  if cloneRaisesL (np.inputs.filterMap id) then .error .valueError else
+  if !fix7a && cloneRaisesL (np.inputs.filterMap id) then .error .valueError else
   if swap then
     match r.1 with
     | [a, b] => .ok ({ np with inputs := [b, a], opIsStr := false }, r.2)
     | _ => .error .assertion
   else .ok ({ np with inputs := r.1, opIsStr := false }, r.2)
 
-def cloneNodes : List NPat → List Bool → Nat → Except CommuteErr (List NPat × Nat)
+def cloneNodes (fix7a : Bool) : List NPat → List Bool → Nat → Except CommuteErr (List NPat × Nat)
   | np :: rest, b :: bs, k =>
-    match cloneNode np b k with
+    match cloneNode fix7a np b k with
     | .error e => .error e
     | .ok (np', k') =>
-      match cloneNodes rest bs k' with
+      match cloneNodes fix7a rest bs k' with
       | .error e => .error e
       | .ok (l, k'') => .ok (np' :: l, k'')
   | _, _, k => .ok ([], k)
@@ -111,18 +111,20 @@ def GPat.maxId (p : GPat) : Nat :=
   max (maxIdL p.outputs)
     (p.nodes.foldl (fun m n => max m (maxIdL (n.inputs.filterMap id))) 0)
 
-/-- `copy_graph(swap_list)` -/
-def copyGraph (p : GPat) (swaps : List Bool) : Except CommuteErr GPat :=
+/-- `copy_graph(swap_list)`; `fix7a = true` restates the repaired `BacktrackingOr.clone`
+(no `ValueError`, finding C06-F7a) -/
+def copyGraph (fix7a : Bool) (p : GPat) (swaps : List Bool) : Except CommuteErr GPat :=
   if !swaps.any id then .ok p else
-  match cloneNodes p.nodes swaps (p.maxId + 1) with
+  match cloneNodes fix7a p.nodes swaps (p.maxId + 1) with
   | .error e => .error e
   | .ok (nodes, k) =>
-    if cloneRaisesL p.outputs then .error .valueError else
+    if !fix7a && cloneRaisesL p.outputs then .error .valueError else
     let outs := (cloneL p.outputs k).1
     let q : GPat := { p with nodes := nodes, outputs := outs }
     if q.ctorOk then .ok q else .error .notImplemented
 
 /-- `GraphPattern.commute` -/
-def commute (p : GPat) : Except CommuteErr (List GPat) := (masks p.nodes).mapM (copyGraph p)
+def commute (fix7a : Bool) (p : GPat) : Except CommuteErr (List GPat) :=
+  (masks p.nodes).mapM (copyGraph fix7a p)
 
 end OV.C06
